@@ -56,6 +56,9 @@ pub struct SimWriter {
   /// completion channels of WaitForAcknowledgments commands sent directly
   pub waits: Vec<StatusChannelReceiver<()>>,
   dw: Option<Box<DataWriter<Msg, CDRSerializerAdapter<Msg>>>>,
+  /// source timestamps the application attaches: 0 increasing with the sequence number, 1 all equal,
+  /// 2 decreasing (an application is free to choose them)
+  pub ts_mode: u8,
   _keep: Vec<Box<dyn std::any::Any>>,
 }
 
@@ -99,7 +102,7 @@ impl SimWriter {
     } else {
       None
     };
-    SimWriter { kit, rk, wguid, next_sn: 1, acount: 0, waits: vec![], dw, _keep: keep }
+    SimWriter { kit, rk, wguid, next_sn: 1, acount: 0, waits: vec![], dw, ts_mode: 0, _keep: keep }
   }
 
   pub fn match_reader(&mut self, r: u8, reliable: bool, reader_transient_local: bool) {
@@ -145,7 +148,12 @@ impl SimWriter {
   pub fn write(&mut self, to: Option<u8>, len: usize, dispose: bool) -> i64 {
     let sn = self.next_sn;
     self.next_sn += 1;
-    let mut wo = WriteOptionsBuilder::new().source_timestamp(Timestamp::from_ticks(Self::src_ts(sn)));
+    let ts = match self.ts_mode {
+      1 => Self::src_ts(1),
+      2 => Self::src_ts(1000 - sn),
+      _ => Self::src_ts(sn),
+    };
+    let mut wo = WriteOptionsBuilder::new().source_timestamp(Timestamp::from_ticks(ts));
     if let Some(r) = to {
       wo = wo.to_single_reader(rguid(r));
     }
@@ -263,7 +271,8 @@ impl SimWriter {
       .map(|c| {
         (
           c.port.wrapping_sub(7100) as u8,
-          wire::parse(&c.bytes).expect("MACHINERY: writer emitted an unparsable datagram"),
+          // a datagram of the writer that its own parser rejects is a finding of the check, not a machinery problem
+          wire::parse(&c.bytes).unwrap_or_else(|e| wire::Parsed { source_prefix: [0; 12], subs: vec![wire::Sub::Other(format!("UNPARSABLE {e}"))] }),
           c.bytes,
         )
       })
